@@ -89,7 +89,10 @@ def check(ID, n, checks):
             open('%s/check%s_%s.log' % (O, n, c), 'w').write(out)
     finally:
         undo()
-    json.dump(results, open('%s/checks%s.json' % (O, n), 'w'), indent=1)
+    path = '%s/checks%s.json' % (O, n)
+    merged = json.load(open(path)) if os.path.exists(path) else {}
+    merged.update(results)          # results of several check ids (and of re-runs after strengthening) accumulate
+    json.dump(merged, open(path, 'w'), indent=1)
     return results
 
 
@@ -104,7 +107,10 @@ def keep(ID, n):
     conf = json.load(open('%s/confirm%s.json' % (O, n)))
     chk = json.load(open('%s/checks%s.json' % (O, n))) if os.path.exists('%s/checks%s.json' % (O, n)) else {}
     notes = open('%s/notes%s.md' % (O, n)).read() if os.path.exists('%s/notes%s.md' % (O, n)) else ''
-    meta = dict(property=ID, files=conf.get('files'), kind=conf.get('kind'),
+    lines_ = [l.strip(' -*#') for l in notes.split('\n') if l.strip(' -*#')]
+    need_ = [l for l in lines_ if re.search(r'need|manifest|requires|only when|trigger', l, re.I)]
+    summary = (need_[0] if need_ else (lines_[1] if len(lines_) > 1 else (lines_[0] if lines_ else '')))[:300]
+    meta = dict(property=ID[:3], worktree=ID, files=conf.get('files'), kind=conf.get('kind'), summary=summary,
                 needs_to_manifest=notes[:1500],
                 confirmed=dict(demo_on_unmodified_tree_rc=conf.get('demo_clean_rc'), demo_with_change_rc=conf.get('demo_patched_rc'),
                                test_suite_with_change=conf.get('suite'),
